@@ -3684,6 +3684,13 @@ class FuncSorted(ValueFunc):
             if args.hasArg("key")
             else environment.get("identity", pos)
         )
+        if len(cmp.getArgNames()) < 2 or len(key.getArgNames()) < 1:
+            raise CklRuntimeError(
+                ValueString("ERROR"),
+                "sorted needs a cmp function with two parameters and a "
+                "key function with one parameter",
+                pos,
+            )
         result = lst.value[:]
         for i in range(len(result)):
             v = key.execute(
